@@ -70,7 +70,7 @@ def run_actor(ctx, prop):
                "answers": d["answers"], "abandoned": d["cancelled"]}
         if not d["ok"]:
             owner = next((p for k, p in CLASS if k in d["what"]), "C09")
-            if owner == prop or (prop == "C11" and hostile and owner == "C09") or (prop == "C10" and owner == "C09" and any(any(c) for c in d["cancelled"])):
+            if owner == prop or (prop == "C11" and hostile and owner == "C09") or (prop == "C10" and owner == "C09" and d.get("ok_without_cancel") is True):
                 ctx.violations.append({"what": "%s: %s" % (prop, d["what"]), "input": inp})
             continue
         if dead and prop == "C11":
